@@ -631,7 +631,31 @@ class Env:
         return 0
 
 
+def gen_fingerprint():
+    h = hashlib.sha256()
+    try:
+        for fn in sorted(os.listdir(GEN)):
+            if fn.endswith(".v"):
+                with open(os.path.join(GEN, fn), "rb") as f:
+                    h.update(fn.encode() + b"\0" + f.read())
+    except OSError:
+        pass
+    return h.hexdigest()
+
+
 def run_check(prop, tier, seed):
+    # coq/Gen is shared by every check run from this directory.  If a concurrent run pointed at
+    # ANOTHER tree (VERIF_REPO) regenerated it while this one was evaluating, what this run saw
+    # is meaningless: it is detected by the fingerprint and the run is repeated.
+    for attempt in range(3):
+        env, fp = _run_once(prop, tier, seed)
+        if attempt < 2 and (env.broken or env.disagreements or env.failures) and gen_fingerprint() != fp:
+            log(f"[{prop}] coq/Gen changed during the run (a concurrent check regenerated it from another tree); running again")
+            continue
+        return env.finish()
+
+
+def _run_once(prop, tier, seed):
     env = Env(prop, tier, seed)
     mod = __import__("props." + prop, fromlist=["x"])
     with _Lock("coq.lock"):
@@ -704,6 +728,7 @@ def run_check(prop, tier, seed):
                     env.assume("translator sections that could not read the rewritten source (" + ", ".join(sorted(failed))
                                + ") define no constant that any theorem of this property depends on (Print All Dependencies); "
                                "they kept the values of the last readable tree, which the correspondence still compares with the implementation")
+        fp = gen_fingerprint()
     # the property module does correspondence + oracle search
     try:
         if tables is None:
@@ -717,4 +742,4 @@ def run_check(prop, tier, seed):
         tb = traceback.format_exc()
         log(tb)
         env.proof_broken("harness error in props/%s.py" % prop, tb)
-    return env.finish()
+    return env, fp
